@@ -22,61 +22,70 @@ def sp(B, bb):
 
 def rule_check_first(ck, F):
     senders = H.sender_fn(F)
-    if len(senders) != 1:
-        ck.undecided("R1", "sender", "-", f"expected one sending function in the helper module, found {len(senders)}")
+    if not senders:
+        ck.undecided("R1", "sender", "-", "no sending function was found in the helper module")
         return
-    fb = senders[0]
-    # the sender with the module's private helpers taken in (sync helpers, awaited private async fns); other entry functions stay calls
-    from engine.rulekit import inline as I
-    B = M.Body(I.Inliner(F.lib, stop=lambda p: "CheckRestrictions" in p or H.is_entry(F, p)).body(fb))
-    short = fb["path"].replace(H.HELPERS_MOD + "::", "")
-    checks = B.calls_to(CHECK)
-    good = []
-    for bb, t in checks:
-        a0 = M.trace(B, t["args"][0], H.FLOW_IDENTITY)
-        is_req = bool(a0) and all(o.kind == "upvar" and o.name == "req" for o in a0)
-        if not is_req:
-            continue
-        flow = {k for k, _ in M.result_flow(B, bb, t)}
-        if flow != {"propagated"}:
-            ck.violation("R1", "check-not-propagated", sp(B, bb),
-                         f"the restriction check on the request is {sorted(flow)}, not propagated with `?`: a failing check does not stop the call", fn=short)
-            continue
-        # the second argument must be None: the envelope's own (generated) facets apply
-        a1 = M.trace(B, t["args"][1])
-        none = bool(a1) and all(o.kind == "aggregate" and o.rv.get("variant") == "None" for o in a1)
-        if not none:
-            ck.violation("R1", "check-restrictions-arg", sp(B, bb), "the request is checked against something other than `None`", fn=short)
-        good.append((bb, t, M.success_continuation(B, bb, t)))
-    if not good:
-        ck.violation("R1", "no-check", fb["span"],
-                     "no propagated `req.check_restrictions(None)?` in the sending function: restrictions are not enforced before sending", fn=short)
-        return
-    conts = [c for _, _, c in good if c is not None]
-    n = 0
-    for bb, t in B.calls():
-        d = M.Body.callee_decl(t) or ""
-        if any(d == x or d.endswith(x) for x in IO_CALLS):
-            n += 1
-            if any(B.dominates(c, bb) for c in conts):
-                ck.ok("R1", f"check-before:{d}", sp(B, bb), f"{d} is dominated by the success continuation of the restriction check", fn=short)
-            else:
-                ck.violation("R1", f"check-before:{d}", sp(B, bb),
-                             f"{d} is reachable before (or without) a successful restriction check", fn=short)
-    for i in sorted(B.reach):
-        if B.term(i).get("k") == "yield":
-            n += 1
-            if not any(B.dominates(c, i) for c in conts):
-                ck.violation("R1", "check-before:await", sp(B, i), "an await point is reachable before the restriction check succeeded", fn=short)
-    ck.floor("R1", "I/O call sites and await points dominated by the check", n, 3)
+    # every entry function that sends is judged on its own (see C16)
+    from rules import c16 as C16
+    senders = sorted(senders, key=lambda b_: (0 if "client" in (b_.get("upvars") or []) else 1, b_["path"]))
+
+    def judge(ck, fb):
+        # the sender with the module's private helpers taken in (sync helpers, awaited private async fns); other entry functions stay calls
+        from engine.rulekit import inline as I
+        B = M.Body(I.Inliner(F.lib, stop=lambda p: "CheckRestrictions" in p or H.is_entry(F, p)).body(fb))
+        short = fb["path"].replace(H.HELPERS_MOD + "::", "")
+        checks = B.calls_to(CHECK)
+        good = []
+        for bb, t in checks:
+            a0 = M.trace(B, t["args"][0], H.FLOW_IDENTITY)
+            is_req = bool(a0) and all(o.kind == "upvar" and o.name == "req" for o in a0)
+            if not is_req:
+                continue
+            flow = {k for k, _ in M.result_flow(B, bb, t)}
+            if flow != {"propagated"}:
+                ck.violation("R1", "check-not-propagated", sp(B, bb),
+                             f"the restriction check on the request is {sorted(flow)}, not propagated with `?`: a failing check does not stop the call", fn=short)
+                continue
+            # the second argument must be None: the envelope's own (generated) facets apply
+            a1 = M.trace(B, t["args"][1])
+            none = bool(a1) and all(o.kind == "aggregate" and o.rv.get("variant") == "None" for o in a1)
+            if not none:
+                ck.violation("R1", "check-restrictions-arg", sp(B, bb), "the request is checked against something other than `None`", fn=short)
+            good.append((bb, t, M.success_continuation(B, bb, t)))
+        if not good:
+            ck.violation("R1", "no-check", fb["span"],
+                         "no propagated `req.check_restrictions(None)?` in the sending function: restrictions are not enforced before sending", fn=short)
+            return
+        conts = [c for _, _, c in good if c is not None]
+        n = 0
+        for bb, t in B.calls():
+            d = M.Body.callee_decl(t) or ""
+            if any(d == x or d.endswith(x) for x in IO_CALLS):
+                n += 1
+                if any(B.dominates(c, bb) for c in conts):
+                    ck.ok("R1", f"check-before:{d}", sp(B, bb), f"{d} is dominated by the success continuation of the restriction check", fn=short)
+                else:
+                    ck.violation("R1", f"check-before:{d}", sp(B, bb),
+                                 f"{d} is reachable before (or without) a successful restriction check", fn=short)
+        for i in sorted(B.reach):
+            if B.term(i).get("k") == "yield":
+                n += 1
+                if not any(B.dominates(c, i) for c in conts):
+                    ck.violation("R1", "check-before:await", sp(B, i), "an await point is reachable before the restriction check succeeded", fn=short)
+        ck.floor("R1", "I/O call sites and await points dominated by the check", n, 3)
+
+    for i_, fb_ in enumerate(senders):
+        judge(ck if i_ == 0 else C16._Keyed(ck, "@" + fb_["path"].replace(H.HELPERS_MOD + "::", "").split("::{closure", 1)[0]), fb_)
     # the convenience wrapper (constructs a Client and delegates) must not do I/O of its own
     for b in F.lib.bodies:
         p = b["path"]
-        if not p.startswith(H.HELPERS_MOD) or not b.get("mir") or b is fb or not b.get("closure"):
+        if not p.startswith(H.HELPERS_MOD) or not b.get("mir") or any(b is s_ for s_ in senders) or not b.get("closure"):
             continue
         WB = M.Body(b)
-        if not WB.calls_to(fb["path"].replace("::{closure#0}", "")):
+        called = [s_ for s_ in senders if WB.calls_to(s_["path"].replace("::{closure#0}", ""))]
+        if not called:
             continue
+        fb = called[0]
         allowed = ("reqwest::Client::new", "IntoFuture::into_future", "Pin::<Ptr>::new_unchecked", "future::get_context",
                    "future::Future::poll", "ops::Deref::deref", fb["path"].replace("::{closure#0}", ""))
         bad = [M.Body.callee_decl(t) for _, t in WB.calls() if not any((M.Body.callee_decl(t) or "").endswith(a) for a in allowed)]
